@@ -33,6 +33,7 @@ def run(chk: Check) -> None:
     run_plugin_identity(chk, ix)
     run_shared_memo_keys(chk, ix)
     run_cache_slot_read_under_write_condition(chk, ix)
+    run_first_element_of_ordered_only(chk, ix)
     R = Resolver(ix)
     r1 = chk.rule("R10.1", "every iteration over a set/frozenset is either consumed order-insensitively (recognised structurally) or tabled with a reason; an untabled order-sensitive use is a violation", floor=80)
     n_sites = 0
@@ -555,3 +556,61 @@ def run_cache_slot_read_under_write_condition(chk: Check, ix) -> None:
             r.ok(key, f.loc(rd), f"both under {sorted(need)}")
         else:
             r.violation(key, f.loc(rd), f"the slot is written only when {sorted(need)} holds but read without that test: a module checked with the other setting receives the answer computed for a module with this one when that module came first, and computes its own otherwise (`mypy a.py b.py` vs `mypy b.py a.py`)")
+
+
+ORDERED_CALLS = {"sorted", "list", "tuple", "reversed", "dict", "OrderedDict"}
+ORDERED_METHODS = {"values", "keys", "items", "fromkeys", "split", "splitlines"}
+ORDERED_ANN = ("list[", "List[", "tuple[", "Tuple[", "Sequence[", "dict[", "Dict[", "Mapping[", "str")
+
+
+def _first_of_sites(fnode: ast.AST):
+    """(call, argument, verdict) for every next(iter(x)) in a function."""
+    def ordered_expr(e: ast.expr) -> bool:
+        if isinstance(e, (ast.List, ast.Tuple, ast.Dict, ast.ListComp, ast.DictComp)):
+            return True
+        if isinstance(e, ast.Call):
+            if isinstance(e.func, ast.Name) and e.func.id in ORDERED_CALLS:
+                return True
+            if isinstance(e.func, ast.Attribute) and e.func.attr in ORDERED_METHODS:
+                return True
+        return False
+    out = []
+    for c in ast.walk(fnode):
+        if not (isinstance(c, ast.Call) and isinstance(c.func, ast.Name) and c.func.id == "next" and c.args and isinstance(c.args[0], ast.Call) and isinstance(c.args[0].func, ast.Name) and c.args[0].func.id == "iter" and c.args[0].args):
+            continue
+        x = c.args[0].args[0]
+        ok = ordered_expr(x)
+        if not ok and isinstance(x, ast.Name):
+            defs = [a.value for a in ast.walk(fnode) if isinstance(a, ast.Assign) and len(a.targets) == 1 and isinstance(a.targets[0], ast.Name) and a.targets[0].id == x.id]
+            lam = any(isinstance(l, ast.Lambda) and any(a.arg == x.id for a in l.args.args) and c in list(ast.walk(l)) for l in ast.walk(fnode))
+            if defs and not lam and all(ordered_expr(d) for d in defs):
+                ok = True
+            a_ = getattr(fnode, "args", None)
+            if a_ is not None and not lam:
+                for p in a_.posonlyargs + a_.args + a_.kwonlyargs:
+                    if p.arg == x.id and p.annotation is not None and norm(p.annotation).startswith(ORDERED_ANN):
+                        ok = True
+        out.append((c, x, ok))
+    return out
+
+
+def run_first_element_of_ordered_only(chk: Check, ix) -> None:
+    """R10.8: `next(iter(x))` takes the first element of something that has a first element."""
+    r8 = chk.rule("R10.8", "`next(iter(x))` is 'any element' for a set or frozenset (which one depends on PYTHONHASHSEED for str members) and 'the first element' only for an ordered container. R10.1 decides iterations whose container type it can resolve; a lambda parameter or an untyped local is not resolved, so every `next(iter(x))` in mypy/ (the modules R10.1 covers) and mypyc/ has an argument that is ordered by construction: a list/tuple/dict display, a call of sorted/list/tuple/dict(.fromkeys)/.values()/.items()/.keys(), a local with exactly such a definition, or a parameter annotated as list/tuple/Sequence/dict/Mapping (build.sorted_components_inner orders sub-SCCs, which are frozensets, by the minimum State.order over their members, not by a representative). The detector is run on a built-in positive and negative example first", floor=1)
+    pos = ast.parse("def f(ready, g):\n    return sorted(ready, key=lambda scc: -g[next(iter(scc))].order)\n").body[0]
+    neg = ast.parse("def f(items):\n    u = dict.fromkeys(items)\n    return next(iter(u))\n").body[0]
+    if [ok for _, _, ok in _first_of_sites(pos)] != [False] or [ok for _, _, ok in _first_of_sites(neg)] != [True]:
+        raise AnalysisError("R10.8 detector self-check failed on the built-in examples")
+    n = 0
+    for q, f in sorted(ix.functions.items()):
+        if f.parent is not None or not (SCOPE(f.module) or (f.module.name.startswith("mypyc.") and not f.module.name.startswith("mypyc.test"))):
+            continue
+        for c, x, ok in _first_of_sites(f.node):
+            n += 1
+            key = f"{q}: next(iter({norm(x)[:40]})) is applied to an ordered container"
+            if ok:
+                r8.ok(key, f.loc(c))
+            else:
+                r8.violation(key, f.loc(c), f"`{norm(x)[:40]}` is not ordered by construction (a lambda parameter, an untyped local, or a set): for a frozenset of module ids the element chosen depends on the hash seed, and with it the order in which the modules of an import cycle are processed and their diagnostics printed")
+    if n < 1:
+        raise AnalysisError(f"only {n} next(iter(...)) sites found")
